@@ -34,6 +34,14 @@ pub const H_QS: u8 = 11;
 pub const H_QM: u8 = 12;
 pub const H_QNL: u8 = 13;
 pub const H_QLQ: u8 = 14;
+pub const H_QV: u8 = 15;
+pub const H_QC: u8 = 16;
+/// H_QW0..H_QW6: responses in which exactly one write (first header, second header, one of three
+/// data, with and without headers) is longer than everything that follows it
+pub const H_QW0: u8 = 17;
+/// H_QP0..: units with one element that cannot be formatted (a non-ASCII string) among good ones
+pub const H_QP0: u8 = 24;
+pub const LONGW: &[u8] = b"ABCDEFGHIJKLMNOPQRST";
 
 pub static MANY: [Item; 300] = [Item::U8(7); 300];
 
@@ -52,6 +60,18 @@ pub fn framing_tree() -> TreeSpec {
         TreeSpec::leaf("QMANy", H_QM),
         TreeSpec::leaf("QNL", H_QNL),
         TreeSpec::leaf("QLQ", H_QLQ),
+        TreeSpec::leaf("QVOLt", H_QV),
+        TreeSpec::leaf("QCALc", H_QC),
+        TreeSpec::leaf("QPA", H_QP0),
+        TreeSpec::leaf("QPB", H_QP0 + 1),
+        TreeSpec::leaf("QPC", H_QP0 + 2),
+        TreeSpec::leaf("QWA", H_QW0),
+        TreeSpec::leaf("QWB", H_QW0 + 1),
+        TreeSpec::leaf("QWC", H_QW0 + 2),
+        TreeSpec::leaf("QWD", H_QW0 + 3),
+        TreeSpec::leaf("QWE", H_QW0 + 4),
+        TreeSpec::leaf("QWF", H_QW0 + 5),
+        TreeSpec::leaf("QWG", H_QW0 + 6),
         TreeSpec::branch("BR", vec![TreeSpec::dleaf("BQ", H_BQ), TreeSpec::leaf("BE", H_BE)]),
         TreeSpec::leaf("*CQ", H_Q1),
     ])
@@ -67,21 +87,40 @@ pub fn framing_plans(dev: &mut RigDev) {
     dev.plan[H_BQ as usize] = Plan::resp(&[Item::Chr(b"ABC"), Item::Bool(false)]);
     dev.plan[H_BE as usize] = Plan::pull(0, 0);
     dev.plan[H_QF as usize] = Plan::resp(&[Item::I64(-25), Item::Expr(b"1,2:3"), Item::Utf8("h\u{e9}")]);
-    dev.plan[H_QE as usize] = Plan::resp(Box::leak(Box::new([Item::Err(Error::custom(-113, b"Undefined header")), Item::U8(0)])));
+    static QE: std::sync::OnceLock<&'static [Item]> = std::sync::OnceLock::new();
+    static QLQ: std::sync::OnceLock<&'static [Item]> = std::sync::OnceLock::new();
+    dev.plan[H_QE as usize] = Plan::resp(QE.get_or_init(|| Box::leak(Box::new([Item::Err(Error::custom(-113, b"Undefined header")), Item::U8(0)]))));
     dev.plan[H_QS as usize] = Plan::resp(&[Item::Block(b"ab;")]);
     dev.plan[H_QM as usize] = Plan::resp(&MANY);
     dev.plan[H_QNL as usize] = Plan::resp(&[Item::I64(1), Item::Block(b"abc\n")]);
-    dev.plan[H_QLQ as usize] = Plan::resp(Box::leak(Box::new([
-        Item::Str(b"a-rather-long-segment-before-the-quote\"x"),
-        Item::Err(Error::custom(-300, b"Probe \"A\" fault").extended(b"a-long-device-dependent-text\"q")),
-    ])));
+    dev.plan[H_QLQ as usize] = Plan::resp(QLQ.get_or_init(|| {
+        Box::leak(Box::new([
+            Item::Str(b"a-rather-long-segment-before-the-quote\"x"),
+            Item::Err(Error::custom(-300, b"Probe \"A\" fault").extended(b"a-long-device-dependent-text\"q")),
+        ]))
+    }));
+    dev.plan[H_QV as usize] = Plan::resp(&[Item::Header(b"VOLTAGE"), Item::I64(7)]);
+    dev.plan[H_QW0 as usize] = Plan::resp(&[Item::Header(LONGW), Item::Header(b"B"), Item::I64(1), Item::I64(2), Item::I64(3)]);
+    dev.plan[H_QW0 as usize + 1] = Plan::resp(&[Item::Header(b"A"), Item::Header(LONGW), Item::I64(1), Item::I64(2), Item::I64(3)]);
+    dev.plan[H_QW0 as usize + 2] = Plan::resp(&[Item::Header(b"A"), Item::Header(b"B"), Item::Chr(LONGW), Item::I64(2), Item::I64(3)]);
+    dev.plan[H_QW0 as usize + 3] = Plan::resp(&[Item::Header(b"A"), Item::Header(b"B"), Item::I64(1), Item::Chr(LONGW), Item::I64(3)]);
+    dev.plan[H_QW0 as usize + 4] = Plan::resp(&[Item::Header(b"A"), Item::Header(b"B"), Item::I64(1), Item::I64(2), Item::Chr(LONGW)]);
+    dev.plan[H_QW0 as usize + 5] = Plan::resp(&[Item::Chr(LONGW), Item::I64(2), Item::I64(3)]);
+    dev.plan[H_QW0 as usize + 6] = Plan::resp(&[Item::I64(1), Item::Chr(LONGW), Item::I64(3)]);
+    dev.plan[H_QP0 as usize] = Plan::resp(&[Item::I64(1), Item::Str(b"caf\xc3\xa9"), Item::I64(0)]);
+    dev.plan[H_QP0 as usize + 1] = Plan::resp(&[Item::Str(b"\xff"), Item::I64(2)]);
+    dev.plan[H_QP0 as usize + 2] = Plan::resp(&[Item::Header(b"HD"), Item::Str(b"\x80"), Item::I64(3), Item::I64(4)]);
+    dev.plan[H_QC as usize] = Plan::resp(&[Item::Header(b"CALCULATE"), Item::Header(b"X"), Item::I64(1)]);
     dev.plan[H_QL as usize] = Plan::resp(&[Item::I64(i64::MIN), Item::Str(b"\"\""), Item::Block(b"0123456789"), Item::F32(f32::NAN), Item::F64(f64::NEG_INFINITY)]);
 }
 
 /// reference text of the 300-element unit
 pub fn many_text() -> &'static str {
-    let v: Vec<&str> = (0..300).map(|_| "7").collect();
-    Box::leak(v.join(",").into_boxed_str())
+    static T: std::sync::OnceLock<&'static str> = std::sync::OnceLock::new();
+    T.get_or_init(|| {
+        let v: Vec<&str> = (0..300).map(|_| "7").collect();
+        Box::leak(v.join(",").into_boxed_str())
+    })
 }
 
 pub fn kinds(all: bool) -> Vec<Kind> {
@@ -103,6 +142,8 @@ pub fn kinds(all: bool) -> Vec<Kind> {
             Kind { text: ":QFL?", resp: Some("-25,(1,2:3),#13h\u{e9}"), needs_br: false, writes_nothing: false },
             Kind { text: ":QERR?", resp: Some("-113,\"Undefined header\",0"), needs_br: false, writes_nothing: false },
             Kind { text: ":QSEM?", resp: Some("#13ab;"), needs_br: false, writes_nothing: false },
+            Kind { text: ":QVOL?", resp: Some("VOLTAGE 7"), needs_br: false, writes_nothing: false },
+            Kind { text: ":QCAL?", resp: Some("CALCULATE:X 1"), needs_br: false, writes_nothing: false },
             Kind { text: ":QNL?", resp: Some("1,#14abc\n"), needs_br: false, writes_nothing: false },
             Kind { text: ":QLON?", resp: Some("-9223372036854775808,\"\"\"\"\"\",#2100123456789,9.91E+37,-9.9E+37"), needs_br: false, writes_nothing: false },
         ]);
@@ -208,6 +249,15 @@ pub fn enumerate(ks: &[Kind], max_units: usize, all_seps: bool) -> Vec<GenMsg> {
         ("QON?;:QMAN?;QON?".to_string(), format!("42;{};42\n", many_text())),
         (":QLQ?".to_string(), "\"a-rather-long-segment-before-the-quote\"\"x\",-300,\"Probe \"\"A\"\" fault;a-long-device-dependent-text\"\"q\"\n".to_string()),
         (":QNL?;EV".to_string(), "1,#14abc\n\n".to_string()),
+        (":QWA?".to_string(), "ABCDEFGHIJKLMNOPQRST:B 1,2,3\n".to_string()),
+        (":QWB?".to_string(), "A:ABCDEFGHIJKLMNOPQRST 1,2,3\n".to_string()),
+        (":QWC?".to_string(), "A:B ABCDEFGHIJKLMNOPQRST,2,3\n".to_string()),
+        (":QWD?".to_string(), "A:B 1,ABCDEFGHIJKLMNOPQRST,3\n".to_string()),
+        (":QWE?".to_string(), "A:B 1,2,ABCDEFGHIJKLMNOPQRST\n".to_string()),
+        (":QWF?".to_string(), "ABCDEFGHIJKLMNOPQRST,2,3\n".to_string()),
+        (":QWG?".to_string(), "1,ABCDEFGHIJKLMNOPQRST,3\n".to_string()),
+        ("QON?;:QWB?;QON?".to_string(), "42;A:ABCDEFGHIJKLMNOPQRST 1,2,3;42\n".to_string()),
+        ("QON?;:QWD?;:QWG?".to_string(), "42;A:B 1,ABCDEFGHIJKLMNOPQRST,3;1,ABCDEFGHIJKLMNOPQRST,3\n".to_string()),
     ] {
         out.push(GenMsg { text: t.into_bytes(), expected: e.into_bytes(), queries: 1 });
     }
@@ -251,19 +301,116 @@ pub fn check_msg(tree: &Node<'static, RigDev>, dev: &mut RigDev, m: &GenMsg) -> 
     Ok(())
 }
 
+/// Index space of all unit sequences of 1..=max_units kinds x separators x endings (decoded on the
+/// fly so that deep bounds need no memory).
+pub struct Space {
+    pub nk: u64,
+    pub max_units: usize,
+    /// offs[len] = number of indices used by sequences shorter than or equal to len
+    pub offs: Vec<u64>,
+}
+
+impl Space {
+    pub fn new(nk: usize, max_units: usize) -> Space {
+        let nk = nk as u64;
+        let mut offs = vec![0u64];
+        for len in 1..=max_units {
+            let nsep = if len > 1 { SEPS.len() as u64 } else { 1 };
+            offs.push(offs[len - 1] + nk.pow(len as u32) * nsep * ENDINGS.len() as u64);
+        }
+        Space { nk, max_units, offs }
+    }
+    pub fn total(&self) -> u64 {
+        self.offs[self.max_units]
+    }
+    pub fn decode(&self, idx: u64) -> (Vec<usize>, &'static str, &'static str) {
+        let mut len = 1;
+        while idx >= self.offs[len] {
+            len += 1;
+        }
+        let mut x = idx - self.offs[len - 1];
+        let e = ENDINGS[(x % ENDINGS.len() as u64) as usize];
+        x /= ENDINGS.len() as u64;
+        let nsep = if len > 1 { SEPS.len() as u64 } else { 1 };
+        let sep = SEPS[(x % nsep) as usize];
+        x /= nsep;
+        let mut seq = vec![0usize; len];
+        for j in (0..len).rev() {
+            seq[j] = (x % self.nk) as usize;
+            x /= self.nk;
+        }
+        (seq, sep, e)
+    }
+}
+
+/// Units holding an element the formatter cannot write. Whether such a message fails is not this
+/// property's business; but if it is reported as executed successfully, its framing must still be
+/// exact: no empty element, no doubled or dangling separator.
+pub fn poison_messages() -> Vec<&'static str> {
+    vec![":QPA?", ":QPB?", ":QPC?", "QON?;:QPA?;QON?", "QON?;:QPB?", ":QPC?;QON?", ":QPA?;:QPB?;:QPC?"]
+}
+
+pub fn check_poison(tree: &Node<'static, RigDev>, text: &[u8]) -> Result<bool, (String, String)> {
+    let mut dev = RigDev::new();
+    framing_plans(&mut dev);
+    let mut out: Vec<u8> = Vec::new();
+    let r = guarded(|| run_vec(tree, &mut dev, text, &mut out)).map_err(|p| ("panic".to_string(), format!("`{}` panicked: {p}", esc(text))))?;
+    if r.is_err() {
+        return Ok(false);
+    }
+    // executed "successfully": judge the framing structurally (strings are quoted, so every
+    // separator outside quotes must have an element on both sides)
+    let mut prev_sep = true; // start of message counts as "just after a separator"
+    let mut in_str = false;
+    let mut bad = out.last() != Some(&b'\n');
+    for &c in &out {
+        if in_str {
+            if c == b'"' {
+                in_str = false;
+            }
+            prev_sep = false;
+            continue;
+        }
+        match c {
+            b'"' => {
+                in_str = true;
+                prev_sep = false;
+            }
+            b',' | b';' | b'\n' => {
+                if prev_sep {
+                    bad = true;
+                }
+                prev_sep = true;
+            }
+            b' ' => {}
+            _ => prev_sep = false,
+        }
+    }
+    if bad {
+        return Err(("framing-empty-element".into(), format!("`{}` is reported as executed successfully but left `{}` in the buffer: an element is missing between two separators", esc(text), esc(&out))));
+    }
+    Ok(true)
+}
+
 pub fn run(ctx: &'static Ctx) -> i32 {
     let spec = framing_tree();
     let shared = SharedTree::of(&spec);
-    let max_units = ctx.tier.pick(3, 4);
+    let max_units = ctx.tier.pick(3, 6);
     let ks = kinds(true);
-    let mut msgs = enumerate(&ks, max_units, true);
-    if ctx.tier == Tier::Thorough {
-        // 5 units over the 4 simplest kinds
-        let simple = kinds(false)[..4].to_vec();
-        msgs.extend(enumerate(&simple, 5, false).into_iter().filter(|m| m.text.iter().filter(|c| **c == b';').count() >= 4));
-    }
-    let total = msgs.len() as u64;
+    let space = Space::new(ks.len(), max_units);
+    // the directed extra messages (long units, empty messages, the query that writes nothing)
+    let extras = enumerate(&ks, 0, true);
+    let total = space.total() + extras.len() as u64;
+    let msg_at = |i: u64| -> Option<GenMsg> {
+        if i < space.total() {
+            let (seq, sep, e) = space.decode(i);
+            build(&ks, &seq, sep, e)
+        } else {
+            Some(extras[(i - space.total()) as usize].clone())
+        }
+    };
     struct Acc {
+        built: u64,
         with_output: u64,
         outcomes: std::collections::HashSet<u64>,
         samples: Vec<Value>,
@@ -273,23 +420,31 @@ pub fn run(ctx: &'static Ctx) -> i32 {
         total,
         SweepOpts {
             name: "C10 messages",
-            chunk: 256,
+            chunk: 4096,
             hang_secs: 30,
         },
         || Acc {
+            built: 0,
             with_output: 0,
             outcomes: Default::default(),
             samples: vec![],
         },
         |i, acc: &mut Acc| {
-            let m = &msgs[i as usize];
+            let m = match msg_at(i) {
+                Some(m) => m,
+                None => return,
+            };
+            let m = &m;
+            acc.built += 1;
             let tree = shared.node();
             let mut dev = RigDev::new();
             framing_plans(&mut dev);
             if m.queries > 0 {
                 acc.with_output += 1;
             }
-            acc.outcomes.insert(fnv(0, &m.expected));
+            if acc.outcomes.len() < 200_000 {
+                acc.outcomes.insert(fnv(0, &m.expected));
+            }
             if acc.samples.len() < 2 && m.queries >= 2 && i % 1013 == 0 {
                 acc.samples.push(json!({"message": esc(&m.text), "reference_response": esc(&m.expected)}));
             }
@@ -297,13 +452,28 @@ pub fn run(ctx: &'static Ctx) -> i32 {
                 ctx.violation(i, &key, &what, json!({"kind": "framing", "message": esc(&m.text), "expected": esc(&m.expected)}));
             }
         },
-        |i| json!({"kind": "framing", "message": esc(&msgs[i as usize].text), "expected": esc(&msgs[i as usize].expected)}),
+        |i| match msg_at(i) {
+            Some(m) => json!({"kind": "framing", "message": esc(&m.text), "expected": esc(&m.expected)}),
+            None => json!({"kind": "framing", "message": "", "expected": ""}),
+        },
     );
+    let mut poison_ok = 0u64;
+    for (j, t) in poison_messages().iter().enumerate() {
+        match check_poison(shared.node(), t.as_bytes()) {
+            Ok(true) => poison_ok += 1,
+            Ok(false) => {}
+            Err((k, w)) => {
+                ctx.violation(total + j as u64, &k, &w, json!({"kind": "poison", "message": t}));
+            }
+        }
+    }
     let mut with_output = 0;
+    let mut built = 0u64;
     let mut outcomes = std::collections::HashSet::new();
     let mut samples = vec![json!({"message": "QON?;EV;QHDR?;", "reference_response": "42;HDR 1,-7\\n"})];
     for a in accs {
         with_output += a.with_output;
+        built += a.built;
         outcomes.extend(a.outcomes);
         for s in a.samples {
             if samples.len() < 8 {
@@ -312,11 +482,13 @@ pub fn run(ctx: &'static Ctx) -> i32 {
         }
     }
     let mut c = cov();
-    c.insert("evaluations".into(), json!(total * 2));
+    c.insert("evaluations".into(), json!(built * 2));
+    c.insert("messages".into(), json!(built));
     c.insert("distinct_nontrivial".into(), json!(with_output));
-    c.insert("distinct_expected_responses".into(), json!(outcomes.len()));
+    c.insert("distinct_expected_responses_at_least".into(), json!(outcomes.len()));
     c.insert("rule".into(), json!(format!("every sequence of 1..{max_units} units over {} unit kinds (event with/without parameter, queries returning 1/2/3/5 data of rotating types incl. strings and blocks containing `;` `,`, response headers of one and two levels, relative and common headers) x unit separators {{`;`, `; `, `;\\t `}} x endings {{none, NL, blank, `;`, `; `, ` NL`, `;NL`, TAB}}, all successful; run on Vec<u8> and ArrayVec<u8,1024>; buffer compared byte-for-byte with reference framing (units joined by `;`, header SP data joined by `,`, exactly one NL iff any output). Distinct non-trivial = messages with at least one query", ks.len())));
     c.insert("exhaustive".into(), json!(true));
+    c.insert("unformattable_element_messages".into(), json!({"run": poison_messages().len(), "reported_successful": poison_ok}));
     c.insert("samples".into(), Value::Array(samples));
     ctx.finish(
         "exploration",
@@ -331,6 +503,12 @@ pub fn run(ctx: &'static Ctx) -> i32 {
 pub fn replay(case: &Value) -> Result<String, String> {
     let spec = framing_tree();
     let tree = spec.build();
+    if case["kind"] == "poison" {
+        return match check_poison(tree, case["message"].as_str().unwrap_or("").as_bytes()) {
+            Ok(s) => Ok(format!("reported successful: {s}")),
+            Err((k, w)) => Err(format!("{k}: {w}")),
+        };
+    }
     let mut dev = RigDev::new();
     framing_plans(&mut dev);
     let m = GenMsg {
